@@ -250,6 +250,14 @@ CubeLevelY ==
   LET yIdx == ValidOnly(Axes, LogicalIdxAll) IN
   [ means |-> Num1([t \in 1..Len(yIdx) |-> CellMean(yIdx[t])]) ]
 
+\* C06: everything a partition of a 3-D response reports, decided by the same
+\* respondent-level meaning with the table element in "sel" mode (members of the table
+\* element; for an MR table dimension: who selected the item)
+C06_2D(tk) ==
+  C01_2D(tk) @@ C02_2D(tk) @@ C03_2D(tk) @@ C11_2D(tk) @@ C12_2D(tk)
+  @@ (IF (Kind(DimR) \in {"cat", "mr"}) /\ (Kind(DimC) \in {"cat", "mr"})
+      THEN C16_2D(tk) ELSE [column_pos |-> Positions(ColOrder(tk))])
+
 Part(tk) ==
   CASE Family = "c01" /\ ND = 1 -> IF HasY THEN C01_1D(tk) @@ C01_1D_Y(tk) ELSE C01_1D(tk)
     [] Family = "c01" /\ ND > 1 -> IF HasY THEN C01_2D(tk) @@ C01_2D_Y(tk) ELSE C01_2D(tk)
@@ -274,12 +282,15 @@ Part(tk) ==
     [] Family = "c20" /\ ND = 1 -> C20_1D_Y(tk)
     [] Family = "c20" /\ ND > 1 -> IF HasY THEN C20_2D(tk) @@ C20_2D_Y(tk) ELSE C20_2D(tk)
     [] Family = "c13" /\ ND > 1 -> IF HasY THEN C13_2D_Y(tk) ELSE C13_2D(tk)
+    [] Family = "c06" /\ ND = 1 -> C01_1D(tk) @@ C02_1D(tk) @@ C03_1D(tk) @@ C11_1D(tk)
+    [] Family = "c06" /\ ND > 1 -> IF HasY THEN C06_2D(tk) @@ C01_2D_Y(tk) ELSE C06_2D(tk)
     [] Family = "c04" /\ ND = 1 -> IF HasY THEN C04_1D(tk) @@ C01_1D_Y(tk) ELSE C04_1D(tk)
     [] Family = "c04" /\ ND > 1 -> IF HasY THEN C04_2D(tk) @@ C01_2D_Y(tk) ELSE C04_2D(tk)
 
 \* layout of the partition, for the harness' mismatch signatures and label mapping
 Aux(tk) ==
   [ rows  |-> RowOrder(tk), cols |-> ColOrder(tk),
+    tpos  |-> IF ND = 3 THEN (IF tk.item # 0 THEN tk.item ELSE CHOOSE x \in tk.pos : TRUE) ELSE 0,
     rdiff |-> [i \in 1..Len(RE(tk)) |-> IsDiff(RE(tk)[i])],
     cdiff |-> [j \in 1..Len(CE(tk)) |-> IsDiff(CE(tk)[j])],
     rsubs |-> IF ND >= 1 THEN LiveIdx(DimR, InsSource(RowDC)) ELSE << >>,
